@@ -49,18 +49,22 @@ type compactionInstruction struct {
 	DeleteKeys    [][]byte
 	RewriteKeys   [][]byte
 	RewriteValues [][]byte
+	// RewriteExpected[i] is the value RewriteKeys[i] had in the compaction snapshot (the removed json key)
+	RewriteExpected [][]byte
 }
 
 func (i *compactionInstruction) append(instr *compactionInstruction) {
 	i.DeleteKeys = append(i.DeleteKeys, instr.DeleteKeys...)
 	i.RewriteKeys = append(i.RewriteKeys, instr.RewriteKeys...)
 	i.RewriteValues = append(i.RewriteValues, instr.RewriteValues...)
+	i.RewriteExpected = append(i.RewriteExpected, instr.RewriteExpected...)
 }
 
 func (i *compactionInstruction) reset() {
 	i.DeleteKeys = make([][]byte, 0)
 	i.RewriteKeys = make([][]byte, 0)
 	i.RewriteValues = make([][]byte, 0)
+	i.RewriteExpected = make([][]byte, 0)
 }
 
 type (
